@@ -29,9 +29,14 @@ This file contains
 
 What "read" and "overwritten" mean (decided by reading the code, see `compile`):
  * `Assign v e` reads the input variables of `e`, overwrites `v`; `Load v a` reads the inputs of `a`,
-   overwrites `v`; `Store a e` reads the inputs of `a` and of `e`, EXCEPT that a stored plain
-   register `Store a (Var x)` is not a read of `x` (a register spill; the analysis does not flag it
-   when `a` is a stack address: "prevent flagging callee-saved registers as parameters").
+   overwrites `v`; `Store a e` reads the inputs of `a` and of `e`, EXCEPT a register spill: a stored
+   plain register `Store a (Var x)` is not a read of `x` if the address `a` is a slot of the function's
+   own stack frame on EVERY path ("prevent flagging callee-saved registers as parameters"). If on
+   SOME path reaching the store the address is a value that is certainly not derived from the stack
+   pointer (the entry value of another register, a constant, a call result, or arithmetic on such
+   values) the store writes `x` to caller-visible memory and IS a read of `x` (`mayNonStack`, a forward
+   may-analysis of "stack pointer ± constant" / "certainly not stack" / "unknown" per register, §2).
+   Addresses that are only "unknown" (loaded values, masked stack pointers) are not demanded.
  * `CBranch` reads the inputs of its condition, `BranchInd`/`Return`/`CallInd` those of the target.
  * a call to an extern symbol reads the input variables of its declared parameters (register
    expressions, and address expressions of stack parameters); a call to an internal function reads
@@ -381,12 +386,119 @@ where
     | [], _ => none
     | b :: rest, off => if b.tid == t then some off else go rest (off + blockSize b)
 
-def compileDef (U : List Variable) (me : Nat) (d : Def) : FNode :=
+/-! ### which stored plain registers are spills? -/
+
+/-- what a value may be: the stack pointer ± constant, certainly not derived from the stack pointer,
+or unknown (may-flags) -/
+structure Cls where
+  stack : Bool
+  non : Bool
+  unk : Bool
+deriving DecidableEq, Repr, Inhabited
+
+def Cls.join (a b : Cls) : Cls := ⟨a.stack || b.stack, a.non || b.non, a.unk || b.unk⟩
+def Cls.onlyNon : Cls := ⟨false, true, false⟩
+def Cls.onlyStack : Cls := ⟨true, false, false⟩
+def Cls.onlyUnk : Cls := ⟨false, false, true⟩
+
+/-- classes of the variables `vars` (aligned lists) -/
+abbrev ClsEnv := List Cls
+
+def clsGet (vars : List Variable) (env : ClsEnv) (v : Variable) : Cls :=
+  let i := vars.idxOf v
+  env.getD i Cls.onlyUnk
+
+def clsSet (vars : List Variable) (env : ClsEnv) (v : Variable) (c : Cls) : ClsEnv :=
+  env.set (vars.idxOf v) c
+
+/-- entry values: the stack pointer is the stack, every other register holds a non-stack value -/
+def clsEntry (sp : Variable) (vars : List Variable) : ClsEnv :=
+  vars.map fun v => if v == sp then Cls.onlyStack else Cls.onlyNon
+
+def exprCls (vars : List Variable) (env : ClsEnv) : Expression → Cls
+  | .Var v => clsGet vars env v
+  | .Const _ _ => Cls.onlyNon
+  | .BinOp .IntAdd l (.Const _ _) => exprCls vars env l
+  | .BinOp .IntSub l (.Const _ _) => exprCls vars env l
+  | .BinOp .IntAdd (.Const _ _) r => exprCls vars env r
+  | e =>
+    if e.inputVars.all (fun v => clsGet vars env v == Cls.onlyNon) &&
+       (match e with | .Unknown _ _ => false | _ => true) then Cls.onlyNon else Cls.onlyUnk
+
+def clsDef (vars : List Variable) (env : ClsEnv) (d : Def) : ClsEnv :=
+  match d with
+  | .Assign v e => clsSet vars env v (exprCls vars env e)
+  | .Load v _ => clsSet vars env v Cls.onlyUnk
+  | .Store _ _ => env
+
+/-- after a call: the stack pointer and callee-saved registers keep their value, everything else holds
+a value produced by the callee (not a slot of this frame) -/
+def clsAfterCall (sp : Variable) (saved : List Variable) (vars : List Variable) (env : ClsEnv) : ClsEnv :=
+  (vars.zip env).map fun (v, c) => if v == sp || saved.contains v then c else Cls.onlyNon
+
+/-- (target block index, environment) pairs leaving a block -/
+def clsOut (returns : Tid → Bool) (sp : Variable) (saved vars : List Variable) (bs : List (Term Blk)) (b : Term Blk)
+    (env : ClsEnv) : List (Nat × ClsEnv) :=
+  let idx (t : Tid) : List Nat := (bs.findIdx? (·.tid == t)).toList
+  let one (j : Jmp) : List (Nat × ClsEnv) :=
+    match j with
+    | .Branch t | .CBranch t _ => (idx t).map (·, env)
+    | .BranchInd _ => (b.term.indirectJmpTargets.flatMap idx).map (·, env)
+    | .Call t (some r) => if returns t then (idx r).map (·, clsAfterCall sp saved vars env) else []
+    | .CallInd _ (some r) => (idx r).map (·, clsAfterCall sp saved vars env)
+    | _ => []
+  (b.term.jmps.take 2).flatMap (fun j => one j.term)
+
+def clsSweep (returns : Tid → Bool) (sp : Variable) (saved vars : List Variable) (bs : List (Term Blk)) (st : List (Option ClsEnv)) :
+    List (Option ClsEnv) :=
+  (List.range bs.length).foldl (fun st i =>
+    match bs[i]?, (st[i]?).join with
+    | some b, some env =>
+      let envEnd := b.term.defs.foldl (fun e d => clsDef vars e d.term) env
+      (clsOut returns sp saved vars bs b envEnd).foldl (fun st (t, e) =>
+        st.set t (some (match (st[t]?).join with
+          | some old => List.zipWith Cls.join old e
+          | none => e))) st
+    | _, _ => st) st
+
+def clsSolve (returns : Tid → Bool) (sp : Variable) (saved vars : List Variable) (bs : List (Term Blk)) :
+    Nat → List (Option ClsEnv) → List (Option ClsEnv)
+  | 0, st => st
+  | fuel + 1, st =>
+    let st' := clsSweep returns sp saved vars bs st
+    if st' = st then st else clsSolve returns sp saved vars bs fuel st'
+
+/-- tids of the `Store a (Var x)` defs of a function whose address may be a non-stack value on some
+path (`returns t`: control continues behind a call to `t`) -/
+def nonSpillStores (p : Project) (returns : Tid → Bool) (s : Term Sub) : List Tid :=
+  let bs := s.term.blocks
+  let sp := p.stackPointerRegister
+  let saved := match standardCc p with | some cc => cc.calleeSavedRegister | none => []
+  let defVars (d : Def) : List Variable := match d with
+    | .Assign v e => v :: e.inputVars
+    | .Load v a => v :: a.inputVars
+    | .Store a e => a.inputVars ++ e.inputVars
+  let vars := (sp :: bs.flatMap fun b => b.term.defs.flatMap fun d => defVars d.term).eraseDups
+  let start : List (Option ClsEnv) := (List.range bs.length).map fun i => if i = 0 then some (clsEntry sp vars) else none
+  let sol := clsSolve returns sp saved vars bs (bs.length * (3 * vars.length + 1) + 2) start
+  (List.range bs.length).flatMap fun i =>
+    match bs[i]?, (sol[i]?).join with
+    | some b, some env =>
+      (b.term.defs.foldl (fun (acc : ClsEnv × List Tid) d =>
+        let hit := match d.term with
+          | .Store a (.Var _) => (exprCls vars acc.1 a).non
+          | _ => false
+        (clsDef vars acc.1 d.term, if hit then d.tid :: acc.2 else acc.2)) (env, [])).2
+    | _, _ => []
+
+def compileDef (U : List Variable) (nonSpill : List Tid) (me : Nat) (t : Tid) (d : Def) : FNode :=
   match d with
   | .Assign v e => { reads := regIdx U e.inputVars, kills := regIdx U [v], succ := [me + 1], kind := "assign" }
   | .Load v a => { reads := regIdx U a.inputVars, kills := regIdx U [v], succ := [me + 1], kind := "load" }
   | .Store a e =>
-    let vr := match e with | .Var _ => [] | _ => e.inputVars
+    let vr := match e with
+      | .Var x => if nonSpill.contains t then [x] else []
+      | _ => e.inputVars
     { reads := regIdx U (a.inputVars ++ vr), succ := [me + 1], kind := "store" }
 
 def compileJmp (p : Project) (U : List Variable) (bs : List (Term Blk)) (b : Term Blk)
@@ -433,10 +545,10 @@ def viaCondEdge : Jmp → Bool
 For `[CBranch c t, j]`: the `CBranch` node reads `c` and leads to `t`; `j` is reached from the
 `CBranch` node if the analysis records the read of `c` on the way to `j` (`viaCondEdge`), otherwise
 directly from `BlkEnd` (for the specification both are the same: a `CBranch` overwrites nothing). -/
-def compileBlock (p : Project) (U : List Variable) (bs : List (Term Blk)) (off : Nat) (b : Term Blk) : List FNode :=
+def compileBlock (p : Project) (U : List Variable) (nonSpill : List Tid) (bs : List (Term Blk)) (off : Nat) (b : Term Blk) : List FNode :=
   let nd := b.term.defs.length
   let nj := b.term.jmps.length
-  let defs := (List.range nd).zipWith (fun i d => compileDef U (off + i) d.term) b.term.defs
+  let defs := (List.range nd).zipWith (fun i d => compileDef U nonSpill (off + i) d.tid d.term) b.term.defs
   let second : Option Jmp := match b.term.jmps with
     | j0 :: j1 :: _ => (match j0.term with | .CBranch _ _ => some j1.term | _ => none)
     | _ => none
@@ -447,16 +559,29 @@ def compileBlock (p : Project) (U : List Variable) (bs : List (Term Blk)) (off :
     compileJmp p U bs b (off + nd + 1 + i) (i == 0 && second.isSome && !direct) j.term) b.term.jmps
   defs ++ [blkEnd] ++ jmps
 
-def compileSub (p : Project) (U : List Variable) (s : Term Sub) : FFn :=
+def compileSub (p : Project) (U : List Variable) (nonSpill : List Tid) (s : Term Sub) : FFn :=
   let bs := s.term.blocks
   let rec go : List (Term Blk) → Nat → List FNode
     | [], _ => []
-    | b :: rest, off => compileBlock p U bs off b ++ go rest (off + blockSize b)
+    | b :: rest, off => compileBlock p U nonSpill bs off b ++ go rest (off + blockSize b)
   { nodes := go bs 0,
     params := match specificCc p s.term.callingConvention with
       | some cc => regIdx U (ccAllParams cc)
       | none => [] }
 
-def compile (p : Project) : FProg := p.program.subs.map (compileSub p (regUniverse p))
+/-- two passes: the control structure (successors, callees, returns) does not depend on what is read,
+so which calls return is computed first (`solveB` on the structure); with it the spill analysis decides
+which stored plain registers are reads. -/
+def compile (p : Project) : FProg :=
+  let U := regUniverse p
+  let P0 : FProg := p.program.subs.map (compileSub p U [])
+  let T0 := (solveB P0 0 (P0.length + 2) (Tables.empty P0.length)).1
+  let returns (t : Tid) : Bool :=
+    match p.program.findExtern t with
+    | some s => !s.noReturn
+    | none => match p.program.subs.findIdx? (·.tid == t) with
+      | some g => T0.canRet g
+      | none => false
+  p.program.subs.map fun s => compileSub p U (nonSpillStores p returns s) s
 
 end CweModel.C14
